@@ -75,7 +75,9 @@ def templates(gname: str):
         return [
             ('<w> = "a"', lambda s: all(w == "a" for w in s.split("\n")[:-1])),
             ('exists <w> w: w = "ab"', lambda s: "ab" in s.split("\n")),
-            ("str.len(<start>) >= 4", lambda s: len(s) >= 4),
+            # <start> is recursive in this grammar: the free nonterminal ranges over every suffix of lines, the shortest
+            # one being the last line with its line feed
+            ("str.len(<start>) >= 3", lambda s: len(s.split("\n")[-2]) + 1 >= 3),
             ("true", lambda s: True),
         ]
     return [
@@ -87,6 +89,16 @@ def templates(gname: str):
 
 
 MALFORMED_CONSTRAINTS = ['forall <var x: x = "a"', '<nosuchnonterminal> = "a"', "str.len(<start>) >=", ")"]
+# constraints that PARSE but cannot be evaluated: predicates check the types of their arguments only when they are
+# evaluated; {nt} = a nonterminal that occurs in every member of the grammar
+ILL_TYPED_CONSTRAINTS = [
+    'forall {nt} v in start: nth("x", v, start)',
+    'forall {nt} v in start: nth(v, v, v)',
+    'forall {nt} v in start: level("XX", "<start>", v, v)',
+    'forall {nt} v in start: before("a", v)',
+    'exists {nt} v in start: count(start, "{nt}", "n")',
+]
+ALWAYS_PRESENT = {"assgn": "<var>", "lines": "<w>", "digits": "<d>"}
 MALFORMED_GRAMMARS = ['<start> ::= <a', '<start> ::= "x" <b>\n<<>', "this is not bnf"]
 
 MEMBERS = {
@@ -173,12 +185,15 @@ def build_case(ctx: Ctx, d: str, row: int) -> Tuple[List[str], Dict[str, Any], A
     cstates, oracles, ctexts = [], [], []
     for i in range(n_c):
         bad = rng.random() < (0.35 if row % 5 == 2 else 0.0)
+        ill = (not bad) and rng.random() < (0.4 if row % 5 == 3 else 0.0)
         if bad:
             text, orc = rng.choice(MALFORMED_CONSTRAINTS), None
+        elif ill:
+            text, orc = rng.choice(ILL_TYPED_CONSTRAINTS).replace("{nt}", ALWAYS_PRESENT[gname]), "raises"
         else:
             text, orc = rng.choice(tmpl)
         ctexts.append(text)
-        cstates.append("malformed" if bad else "ok")
+        cstates.append("malformed" if bad else "ok")  # an ill-typed constraint parses: its state is ok, it shows in the verdict
         oracles.append(orc)
     # order of evaluation in the CLI: --constraint args first, then .isla files
     as_arg = [rng.random() < 0.5 for _ in ctexts]
@@ -235,7 +250,8 @@ def build_case(ctx: Ctx, d: str, row: int) -> Tuple[List[str], Dict[str, Any], A
             p = os.path.join(d, "input.txt")
             open(p, "w").write(file_content)
             files.append(p)
-        istate = ("given", kind, text)
+        # a FILE's content is tried without one trailing line terminator first and as it is second
+        istate = ("given", kind, text, None if via_arg else file_content)
         desc["input_content"] = file_content if not via_arg else content
         desc["via_input_string"] = via_arg
     desc["input_kind"] = kind
@@ -245,12 +261,18 @@ def build_case(ctx: Ctx, d: str, row: int) -> Tuple[List[str], Dict[str, Any], A
 def classify(istate, oracles, gname) -> Any:
     if istate in ("none", "several"):
         return Atom(istate)
-    _, kind, text = istate
+    _, kind, text, raw = istate
     if kind == "jsontree":
         in_g = True  # a valid derivation tree of the grammar (certified below)
     else:
         in_g = in_language(gname, [text])[0]
-    sat = in_g and all(o(text) for o in oracles if o is not None)
+        if not in_g and raw is not None and raw != text and in_language(gname, [raw])[0]:
+            in_g, text = True, raw
+    sat = in_g and all(o(text) for o in oracles if o is not None and o != "raises")
+    if in_g and "raises" in oracles:
+        # the conjunction cannot be decided without evaluating the ill-typed constraint when all others hold;
+        # otherwise the order of evaluation decides between "violated" and "not evaluable": both are accepted
+        return [Atom("given"), in_g, Atom("error")] if sat else [Atom("given"), in_g, Atom("error-or-unsat")]
     return [Atom("given"), in_g, sat]
 
 
@@ -262,7 +284,11 @@ def one_case(ctx: Ctx, row: int):
         argv = [cmd] + files_argv
         code, out, err = run_cli(argv)
         inp = classify(istate, oracles, gname)
-        want = drive([[Atom("c19"), Atom("check"), Atom(gstate), [Atom(c) for c in cstates], inp]])[0]
+        if isinstance(inp, list) and inp[2] == "error-or-unsat":
+            w2 = drive([[Atom("c19"), Atom("check"), Atom(gstate), [Atom(c) for c in cstates], [Atom("given"), inp[1], v]] for v in (Atom("error"), False)])
+            want = code if code in w2 else w2[0]
+        else:
+            want = drive([[Atom("c19"), Atom("check"), Atom(gstate), [Atom(c) for c in cstates], inp]])[0]
         ctx.evaluations += 1
         icls = str(inp) if isinstance(inp, Atom) else f"given(inG={inp[1]},sat={inp[2]})"
         ctx.count("row", f"{cmd}|g={gstate}|c={','.join(cstates) or 'none'}|{icls}")
@@ -304,31 +330,53 @@ def one_case(ctx: Ctx, row: int):
 
 
 def solve_check_pipe(ctx: Ctx, n: int):
+    """`isla solve` -> `isla check`.  The exact solutions are taken from `--output-dir` files (stdout separates several
+    solutions by line feeds, which is ambiguous for languages whose words contain line feeds); each is then given to
+    `isla check` (a) as --input-string, (b) as a file holding what `isla solve` prints to stdout for it (the solution and
+    print's line feed), (c) as the file `isla solve --output-dir` wrote itself."""
     rng = ctx.rng
     for _ in range(n):
         gname = rng.choice(list(GRAMMARS))
         bnf = GRAMMARS[gname][0]
         cons = [t for t, _ in rng.sample(templates(gname), 2)]
-        argv = ["solve", "--grammar", bnf]
-        for c in cons:
-            argv += ["--constraint", c]
-        argv += ["-n", "4", "-t", "20"]
-        code, out, err = run_cli(argv)
-        ctx.evaluations += 1
-        ctx.count("pipe", "solve")
-        if isinstance(code, tuple):
-            ctx.violation(f"traceback:{code[1]}:solve", f"isla solve ended with an uncaught {code[1]}", {"argv": argv, "traceback": code[2]})
-            continue
-        for line in [l for l in out.splitlines() if l != ""]:
-            cargv = ["check", "--grammar", bnf]
+        d = tempfile.mkdtemp(prefix="islasolve")
+        try:
+            argv = ["solve", "--grammar", bnf]
             for c in cons:
-                cargv += ["--constraint", c]
-            cargv += ["--input-string", line]
-            code2, _, _ = run_cli(cargv)
+                argv += ["--constraint", c]
+            argv += ["-n", "4", "-t", "20", "-d", d]
+            code, out, err = run_cli(argv)
             ctx.evaluations += 1
-            ctx.count("pipe", "solve->check")
-            if code2 != 0:
-                ctx.violation("pipe:solve->check", f"`isla solve` printed {line!r}, `isla check` exits {code2}", {"grammar": gname, "constraints": cons, "solution": line, "check_exit": code2})
+            ctx.count("pipe", "solve")
+            if isinstance(code, tuple):
+                ctx.violation(f"traceback:{code[1]}:solve", f"isla solve ended with an uncaught {code[1]}", {"argv": argv, "traceback": code[2]})
+                continue
+            # the same invocation printing to stdout must print exactly these solutions, each followed by a line feed
+            code_p, out_p, _ = run_cli([a for a in argv[:-2]])
+            sols = []
+            for fn in sorted(os.listdir(d)):
+                if fn.endswith(".txt"):
+                    sols.append((fn, open(os.path.join(d, fn), "rb").read().decode("utf-8")))
+            if not isinstance(code_p, tuple) and sols and out_p != "".join(s + "\n" for _, s in sols):
+                ctx.count("pipe", "stdout differs from --output-dir files (solver not deterministic across runs: not judged)")
+            for fn, sol in sols:
+                base = ["check", "--grammar", bnf]
+                for c in cons:
+                    base += ["--constraint", c]
+                variants = [("input-string", base + ["--input-string", sol])]
+                p = os.path.join(d, "printed_" + fn)
+                open(p, "w").write(sol + "\n")
+                variants.append(("stdout-redirected-to-file", base + [p]))
+                variants.append(("output-dir-file", base + [os.path.join(d, fn)]))
+                for how, cargv in variants:
+                    code2, _, _ = run_cli(cargv)
+                    ctx.evaluations += 1
+                    ctx.count("pipe", f"solve->check:{how}")
+                    if code2 != 0:
+                        tag = ":solution-ends-with-line-feed" if how == "output-dir-file" and sol.endswith("\n") else ""
+                        ctx.violation(f"pipe:solve->check:{how}{tag}", f"`isla solve` produced {sol!r}, `isla check` ({how}) exits {code2}", {"grammar": gname, "constraints": cons, "solution": sol, "how": how, "check_exit": code2})
+        finally:
+            shutil.rmtree(d, ignore_errors=True)
 
 
 def subprocess_sample(ctx: Ctx):
